@@ -602,6 +602,15 @@ func (a *act) applyContract(sp *FuncSpec, fn *ssa.Function, m *types.Func, args 
 		_ = i
 		fx.addObl("pre@"+short, a.prefix()+name, guard, t, pos, "precondition of "+sp.Key)
 	}
+	if fx.lockMode && a.top {
+		for _, ac := range sp.Acquires {
+			lk := fx.specVal(ac.X, env, pre, pre)
+			acq := fx.sv(st, "$acq", ArrS(SRef, SInt))
+			what := fx.eng.srcText(pos, nil)
+			fx.addObl("atomic", a.prefix()+"single critical section on "+normSpace(ac.Text)+": "+what, guard, Eq(Sel(acq, lk.T), "0"), pos, "the same lock's critical section is entered a second time: the two reads do not see one consistent state")
+			fx.setSV(st, "$acq", ArrS(SRef, SInt), Store(acq, lk.T, "1"))
+		}
+	}
 	// function-typed arguments with a callspec: a statically known argument is checked against it here
 	if fn != nil {
 		for i, prm := range fn.Params {
